@@ -475,3 +475,351 @@ Proof.
     pose proof (Zero _ (nth_error_In _ _ Ej)) as Z. unfold open_in in Z. rewrite Rn, Rt in Z. cbn in Z.
     destruct (tdone t); [reflexivity|discriminate].
 Qed.
+
+(** * Every critical section *)
+Definition done_label (l : label) : option nat := match l with LRelHandled k => Some k | _ => None end.
+
+Lemma unit_running_released s t : unit_running s t = true -> released s (t_unit t) = true.
+Proof.
+  unfold unit_running, released, rel_in, released_u. destruct (nth_error _ _) as [u|]; [|discriminate].
+  destruct (u_st u); auto; discriminate.
+Qed.
+
+Lemma dequeue_nbar s : nbar (dequeue s) = nbar s.
+Proof. unfold dequeue. destruct (inq s) as [|[b ms] q]; [destruct (running s)|]; reflexivity. Qed.
+
+Lemma dequeue_nk ex s : nk ex (tasks s) (tasks (dequeue s)).
+Proof.
+  unfold dequeue. destruct (inq s) as [|[b ms] q]; [destruct (running s); apply nk_refl|]. cbn. apply nk_app.
+Qed.
+
+Lemma stop_locked_nbar c s s' os : stop_locked c s = (s', os) -> nbar s' = nbar s /\ dp s' = dp s /\ units s' = units s.
+Proof.
+  intros H. apply stop_locked_spec in H as [(_ & -> & _)|(_ & _ & P)]; auto. destruct P. auto.
+Qed.
+
+Lemma raw_Q s l s' os : inv s -> inv2 s -> owners_ok s -> Q (nbar s) s -> step_raw s l = Some (s', os) ->
+  Q (nbar s') s' /\ nk (done_label l) (tasks s) (tasks s').
+Proof.
+  intros I I2 O H Hs. destruct (frame_label l) eqn:Fl.
+  { apply step_raw_frame in Hs as (C & _); auto. unfold core in C. injection C as T U _ _ _ D _ _ _ B.
+    rewrite B, T. split; [|apply nk_refl]. eapply Q_same; eauto. unfold bar. rewrite D. auto. }
+  destruct l; try discriminate Fl; unfold step_raw in Hs; cbn [done_label].
+  - (* LStart *)
+    destruct (negb (running s) && (wg s =? 0)); [|discriminate]. injection Hs as <- <-.
+    split; [|apply nk_refl]. eapply Q_same; eauto. unfold bar; cbn. intros u [D|D]; discriminate.
+  - (* LGate *)
+    destruct (find_idx _ 0 (tasks s)) as [k|] eqn:F; [|discriminate].
+    destruct (nth_error (tasks s) k) as [t|] eqn:E; [|discriminate]. injection Hs as <- <-.
+    apply find_idx_some in F as (x & Ex & Px & _). rewrite Nat.sub_0_r, E in Ex. injection Ex as <-.
+    apply andb_true_iff in Px as [_ Px]. destruct (t_st t) eqn:St; try discriminate.
+    split.
+    + eapply (Q_set_st (nbar s) s _ k t (TAtHandled o)); eauto.
+      * intros R. destruct (q_pend _ _ H _ _ E R); congruence.
+      * unfold tdone. rewrite St. auto.
+      * intros _ b; discriminate.
+    + apply (nk_set_st None (tasks s) k t (TAtHandled o)); auto. intros _ b; discriminate.
+  - (* LRelRead *)
+    destruct (rd s) as [| |f|] eqn:Rd; try discriminate. injection Hs as Hs.
+    destruct f as [i|i|c].
+    3:{ cbn in Hs. destruct (stop_locked c s) as [s0 os0] eqn:St. injection Hs as <- <-.
+        destruct (stop_locked_Q _ None _ _ _ _ H O St) as (H0 & N0).
+        destruct (stop_locked_nbar _ _ _ _ St) as (B0 & D0 & _).
+        split; [|exact N0]. cbn. rewrite B0. eapply Q_same; eauto. }
+    all: destruct (running s) eqn:Rn;
+      [ eapply read_cs_msg in Hs as (C & _); eauto; pose proof C as C'; unfold core0 in C';
+        injection C' as T _ _ _ _ _ _ _ B; rewrite B, T; split; [eapply Q_core0; eauto|apply nk_refl]
+      | cbn in Hs; rewrite Rn in Hs; cbn in Hs; injection Hs as <- <-; split; [|apply nk_refl];
+        eapply Q_same; eauto ].
+  - (* LRelNext *)
+    destruct (dp s) eqn:D; try discriminate. injection Hs as <- <-.
+    rewrite dequeue_nbar. split; [|apply dequeue_nk]. apply dequeue_Q; auto.
+    intros u [Hb|Hb]; congruence.
+  - (* LRelBarrier *)
+    destruct (dp s) eqn:D; try discriminate. injection Hs as <- <-.
+    split; [|apply nk_refl]. eapply Q_same; eauto. unfold bar; cbn. rewrite D.
+    intros v [Dv|Dv]; [discriminate|]. injection Dv as <-. auto.
+  - (* LRelAcquire *)
+    destruct (nth_error (tasks s) k) as [t|] eqn:E; [|discriminate].
+    destruct (t_st t) eqn:St; try discriminate.
+    destruct (unit_running s t) eqn:Ur; cbn [negb] in Hs; [|discriminate].
+    apply unit_running_released in Ur.
+    assert (Td : tdone t = false) by (unfold tdone; rewrite St; auto).
+    assert (X : forall x s1, (is_note t = true -> forall b, x <> TDone b) ->
+              tasks s1 = upd_nth k (fun t => t <| t_st := x |>) (tasks s) -> units s1 = units s -> dp s1 = dp s ->
+              nbar s1 = nbar s ->
+              Q (nbar s1) s1 /\ nk None (tasks s) (tasks s1)).
+    { intros x s1 Hx T1 U1 D1 B1. rewrite B1, T1. split.
+      - eapply (Q_set_st (nbar s) s s1 k t x); eauto; try congruence. unfold bar. rewrite D1. auto.
+      - apply (nk_set_st None (tasks s) k t x); auto. }
+    destruct (t_cancelled t) eqn:Ct.
+    { injection Hs as <- <-. apply (X (TDone (Some cancel_err))); auto.
+      intros Nt. rewrite (q_canc _ _ H _ _ E Nt) in Ct. discriminate. }
+    destruct (sem_free s); [injection Hs as <- <-; apply (X TWaiting); auto; intros _ b; discriminate|].
+    destruct (sem_wait s); [|injection Hs as <- <-; apply (X TWaiting); auto; intros _ b; discriminate].
+    destruct (t_builtin t); injection Hs as <- <-;
+      [apply (X (TAtHandled (ORes [])))|apply (X TRunning)]; auto; intros _ b; discriminate.
+  - (* LRelHandled *)
+    destruct (nth_error (tasks s) k) as [t|] eqn:E; [|discriminate].
+    destruct (t_st t) eqn:St; try discriminate.
+    set (s0 := set_task k (fun t => t <| t_st := TDone (body_of_outcome t o) |>) s <| sem_free ::= S |>) in *.
+    assert (W0 : wait_ok s0).
+    { unfold wait_ok, s0; cbn. apply wait_ok_upd; [apply I|]. eapply wait_not_in; eauto; [apply I|congruence]. }
+    assert (Rl : released s (t_unit t) = true).
+    { destruct (released s (t_unit t)) eqn:R; auto. destruct (q_pend _ _ H _ _ E R); congruence. }
+    assert (Rn : runnable t = true).
+    { unfold runnable. destruct (t_pre t) eqn:Pt; auto. destruct (i_pre _ I _ _ E) as [P _]. rewrite (P _ Pt) in St. discriminate. }
+    assert (N0 : nk (Some k) (tasks s) (tasks s0)).
+    { unfold s0. cbn. apply nk_upd. intros y Ey. split; auto. }
+    assert (T0 : tasks s0 = upd_nth k (fun t => t <| t_st := TDone (body_of_outcome t o) |>) (tasks s)) by reflexivity.
+    set (n0 := if is_note t then pred (nbar s) else nbar s).
+    assert (H0 : Q n0 s0 /\ (is_note t = true -> 0 < nbar s)).
+    { unfold n0. destruct (is_note t) eqn:Nt.
+      - assert (Op : open_note s t = true).
+        { unfold open_note, open_in, rnote, tdone. rewrite Rn, Nt, St. fold (released s (t_unit t)). rewrite Rl. reflexivity. }
+        assert (Pos : 0 < nbar s).
+        { rewrite (q_bar _ _ H). unfold open_notes. eapply countb_pos; eauto. }
+        split; auto.
+        eapply (Q_upd (nbar s) (pred (nbar s)) s s0 k t); eauto.
+        + intros _. cbn. eapply q_canc; eauto.
+        + congruence.
+        + rewrite Op. unfold open_note, open_in, tdone. cbn. rewrite !andb_false_r. lia.
+      - split; [|discriminate].
+        eapply (Q_upd (nbar s) (nbar s) s s0 k t); eauto.
+        + congruence.
+        + congruence.
+        + rewrite !open_note_call; auto. }
+    destruct H0 as [H0 Pos].
+    destruct (grant_Q n0 (Some k) (S (length (sem_wait s0))) s0 [] W0 H0) as (H2 & N2).
+    pose proof (grant_spec (S (length (sem_wait s0))) s0 [] W0) as G.
+    destruct (grant (S (length (sem_wait s0))) s0 []) as [s2 os2]. cbn [fst snd] in *.
+    destruct G as [_ _ _ (U2 & D2 & _ & _ & _ & B2 & _) _ _ _ _].
+    assert (B2' : nbar s2 = nbar s) by (rewrite B2; reflexivity).
+    assert (N02 : nk (Some k) (tasks s) (tasks s2)) by (eapply nk_trans; eauto).
+    unfold n0 in H2. destruct (is_note t).
+    + specialize (Pos eq_refl). destruct (nbar s2) as [|m] eqn:Bm; [lia|]. injection Hs as <- <-.
+      split; [|exact N02]. cbn. rewrite <- B2' in H2. cbn in H2. eapply Q_same; eauto.
+    + injection Hs as <- <-. split; [|exact N02]. rewrite B2'. exact H2.
+  - (* LRelDeliver *)
+    destruct (nth_error (units s) u) as [un|] eqn:E; [|discriminate].
+    destruct (u_st un) eqn:Su; try discriminate.
+    destruct (release_ids_Q (nbar s) None (unit_tasks s u) s H O) as (H1 & _ & N1).
+    destruct (release_ids_spec (unit_tasks s u) s) as [_ _ _ (Eu & Ed & _ & _ & _ & Eb & _) _ _ _].
+    set (s1 := release_ids (unit_tasks s u) s) in *.
+    destruct (u_chok un); cbn [negb] in Hs; injection Hs as <- <-; (split; [|exact N1]); cbn; rewrite Eb.
+    + eapply (set_released_Q (nbar s) s1 _ u un UFinished); eauto.
+      * rewrite Eu. exact E.
+      * unfold released_u. rewrite Su. reflexivity.
+    + eapply Q_same; eauto.
+  - (* LRelStop *)
+    destruct (find_op n (ops s)) as [[n0|n0 id|n0 w m p]|]; try discriminate.
+    destruct (stop_locked SCStop (s <| ops ::= del_op n |>)) as [s0 os0] eqn:St. injection Hs as <- <-.
+    assert (H1 : Q (nbar s) (s <| ops ::= del_op n |>)) by (eapply Q_same; eauto).
+    assert (O1 : owners_ok (s <| ops ::= del_op n |>)) by (eapply owners_same; eauto).
+    destruct (stop_locked_Q _ None _ _ _ _ H1 O1 St) as (H0 & N0).
+    destruct (stop_locked_nbar _ _ _ _ St) as (B0 & _). rewrite B0. split; auto.
+  - (* LRelCancel *)
+    destruct (find_op n (ops s)) as [[n0|n0 id|n0 w m p]|]; try discriminate.
+    injection Hs as <- <-. cbn.
+    assert (H1 : Q (nbar s) (s <| ops ::= del_op n |>)) by (eapply Q_same; eauto).
+    assert (O1 : owners_ok (s <| ops ::= del_op n |>)) by (eapply owners_same; eauto).
+    destruct (assoc id (used s)) as [owner|] eqn:A.
+    + destruct (cancel_task_Q (nbar s) None (s <| ops ::= del_op n |>) id owner H1 O1) as (H2 & _ & N2).
+      { apply assoc_in. exact A. }
+      destruct (cancel_task_env owner (s <| ops ::= del_op n |>)) as (_ & _ & _ & _ & _ & B & _).
+      rewrite B. split; auto.
+    + split; [exact H1|apply nk_refl].
+Qed.
+
+(** * Every wake-up *)
+Lemma settle1_Q s s' os : inv s -> inv2 s -> Q (nbar s) s -> settle1 s = Some (s', os) -> Q (nbar s') s'.
+Proof.
+  intros I I2 H Hs. apply settle1_inv in Hs. destruct Hs as [f q Rd Ch|D Rn|u un D Z E|i un F E Rs|i un F E Rs|W G Iq|W G Iq].
+  - eapply Q_same; eauto.
+  - rewrite dequeue_nbar. apply dequeue_Q; auto. intros u [Hb|Hb]; congruence.
+  - rewrite Z in H. cbn. eapply (barrier_Q s u un); eauto.
+  - apply find_unit_some in F as (un' & E' & C & _). rewrite Nat.sub_0_r, E in E'. injection E' as <-.
+    apply unit_complete_inv in C as [Su _].
+    eapply (set_released_Q (nbar s) s _ i un UFinished); eauto. unfold released_u. rewrite Su. reflexivity.
+  - apply find_unit_some in F as (un' & E' & C & _). rewrite Nat.sub_0_r, E in E'. injection E' as <-.
+    apply unit_complete_inv in C as [Su _].
+    eapply (set_released_Q (nbar s) s _ i un UAtDeliver); eauto. unfold released_u. rewrite Su. reflexivity.
+  - eapply Q_same; eauto.
+  - eapply Q_same; eauto.
+Qed.
+
+Lemma init_Q c : Q (nbar (init_of c)) (init_of c).
+Proof.
+  constructor; cbn; auto.
+  - intros [|k] t E; discriminate.
+  - intros [|u] un E; discriminate.
+  - intros [|k] t E; discriminate.
+  - intros u [D|D]; discriminate.
+  - intros u [|j] t _ E; discriminate.
+Qed.
+
+Theorem reachf_Q c s : reachf c s -> Q (nbar s) s.
+Proof.
+  induction 1 as [|s l s' os R IH Cr Hs|s s' os R IH Hs].
+  - apply init_Q.
+  - eapply raw_Q; eauto.
+    + eapply reachf_inv; eauto.
+    + eapply reachf_inv2; eauto.
+    + apply inv_used_owners. eapply reachf_inv_used; eauto.
+  - eapply settle1_Q; eauto.
+    + eapply reachf_inv; eauto.
+    + eapply reachf_inv2; eauto.
+Qed.
+
+(** * 1. the barrier counter *)
+(* nbar = number of runnable notification tasks of released units that have not returned *)
+Theorem inv_nbar c s : reachf c s -> nbar s = open_notes s.
+Proof. intros R. exact (q_bar _ _ (reachf_Q _ _ R)). Qed.
+
+(* the form asked for: in crash-free states (it holds in all) *)
+Corollary inv_nbar_nocrash c s : reachf c s -> crash s = None ->
+  nbar s = countb (fun t => runnable t && is_note t && released s (t_unit t) && negb (tdone t)) (tasks s).
+Proof. intros R _. rewrite (inv_nbar _ _ R). reflexivity. Qed.
+
+Theorem notes_never_cancelled c s k t : reachf c s -> nth_error (tasks s) k = Some t -> is_note t = true ->
+  t_cancelled t = false.
+Proof. intros R. exact (q_canc _ _ (reachf_Q _ _ R) k t). Qed.
+
+Theorem unit_notes_count c s u un : reachf c s -> nth_error (units s) u = Some un ->
+  u_notes un = countb (note_of u) (tasks s).
+Proof. intros R. exact (q_notes _ _ (reachf_Q _ _ R) u un). Qed.
+
+Theorem unreleased_pending c s k t : reachf c s -> nth_error (tasks s) k = Some t -> released s (t_unit t) = false ->
+  t_st t = TSkip \/ t_st t = TAtAcquire.
+Proof. intros R. exact (q_pend _ _ (reachf_Q _ _ R) k t). Qed.
+
+(* the frontier: the unit at the barrier is the last one and the only one not released *)
+Theorem frontier c s : reachf c s ->
+  (forall u, bar s u -> S u = length (units s) /\ released s u = false /\
+             forall v, v < u -> released s v = true) /\
+  ((forall u, ~ bar s u) -> forall v, v < length (units s) -> released s v = true).
+Proof.
+  intros R. pose proof (reachf_Q _ _ R) as H. pose proof (reachf_inv _ _ R) as I. pose proof (reachf_inv2 _ _ R) as I2.
+  assert (Rel : forall v, v < length (units s) -> released s v = false -> bar s v).
+  { intros v Lv Rv. unfold released, rel_in in Rv. destruct (nth_error (units s) v) as [un|] eqn:E.
+    - unfold released_u in Rv. destruct (u_st un) eqn:Su; try discriminate; eapply i_bar; eauto.
+    - apply nth_error_None in E. lia. }
+  split.
+  - intros u Hb. pose proof (q_last _ _ H _ Hb) as L. split; auto. split.
+    + destruct (i_dp _ I _ Hb) as (un & E & Su). unfold released, rel_in, released_u. rewrite E, Su. reflexivity.
+    + intros v Lv. destruct (released s v) eqn:Rv; auto.
+      assert (Hv : bar s v) by (apply Rel; auto; lia).
+      destruct Hb as [Hb|Hb], Hv as [Hv|Hv]; rewrite Hb in Hv; try discriminate; injection Hv as ->; lia.
+  - intros NB v Lv. destruct (released s v) eqn:Rv; auto. destruct (NB v). apply Rel; auto.
+Qed.
+
+(* the barrier counter never goes negative: the panic of nbar.Done() is unreachable *)
+Theorem no_negative_barrier c s : reachf c s -> crash s <> Some CrNegativeBarrier.
+Proof.
+  induction 1 as [|s l s' os R IH Cr Hs|s s' os R IH Hs].
+  - cbn. discriminate.
+  - intros Cs'. pose proof (reachf_Q _ _ R) as H. pose proof (reachf_inv _ _ R) as I.
+    destruct (frame_label l) eqn:Fl.
+    { apply step_raw_frame in Hs as (_ & C & _); auto. congruence. }
+    destruct l; try discriminate Fl; unfold step_raw in Hs.
+    + destruct (negb (running s) && (wg s =? 0)); [|discriminate]. injection Hs as <- <-. cbn in Cs'. congruence.
+    + destruct (find_idx _ 0 (tasks s)) as [k|]; [|discriminate].
+      destruct (nth_error (tasks s) k) as [t|]; [|discriminate]. injection Hs as <- <-. cbn in Cs'. congruence.
+    + destruct (rd s) as [| |f|] eqn:Rd; try discriminate. injection Hs as Hs.
+      destruct f as [i|i|c0].
+      3:{ cbn in Hs. destruct (stop_locked c0 s) as [s0 os0] eqn:St. injection Hs as <- <-. cbn in Cs'.
+          unfold stop_locked in St. destruct (running s); cbn [negb] in St; [|injection St as <- <-; congruence].
+          match type of St with (?x, _) = _ => assert (Hs' : s0 = x) by congruence end. clear St.
+          match type of Hs' with context [fold_left ?f ?l ?s1] =>
+            pose proof (fold_cancel_spec l s1) as Fs; cbv zeta in Fs;
+            set (s4 := fold_left f l s1) in *; set (s3 := s1) in * end.
+          destruct Fs as (_ & _ & _ & (_ & _ & _ & _ & _ & _ & _ & C4 & _) & _).
+          assert (C3 : crash s3 <> Some CrNegativeBarrier).
+          { unfold s3. destruct (work_closed _); cbn; congruence. }
+          clearbody s4. clearbody s3. subst s0. destruct (c_unblock _); cbn in Cs'; congruence. }
+      all: destruct (running s) eqn:Rn;
+        [ | cbn in Hs; rewrite Rn in Hs; cbn in Hs; injection Hs as <- <-; cbn in Cs'; congruence ].
+      all: assert (Hs2 : (match i with
+           | InBad => let '(s', os) := push_error s ParseError s_invalid_value in (s' <| rd := RIdle |>, os)
+           | InMsgs _ [] => let '(s', os) := push_error s InvalidRequest s_empty_batch in (s' <| rd := RIdle |>, os)
+           | InMsgs b ms =>
+               let '(s1, keep, os) := filter_batch ms s [] [] in
+               match keep with
+               | [] => (s1 <| rd := RIdle |>, os)
+               | _ => let s2 := s1 <| inq ::= fun q => q ++ [(b, keep)] |> <| rd := RIdle |> in
+                      if work_closed s2 && (length (inq s2) =? 1)
+                      then (s2 <| crash := Some CrSendOnClosedWork |>, os ++ [OCrash CrSendOnClosedWork])
+                      else (s2, os)
+               end
+           end) = (s', os)) by (unfold read_cs in Hs; rewrite Rn in Hs; exact Hs).
+      all: clear Hs; destruct i as [|b ms]; [cbn in Hs2; injection Hs2 as <- <-; cbn in Cs'; congruence|].
+      all: destruct ms as [|m ms]; [cbn in Hs2; injection Hs2 as <- <-; cbn in Cs'; congruence|].
+      all: destruct (filter_batch (m :: ms) s [] []) as [[s1 keep] os1] eqn:Fb;
+           apply filter_batch_core in Fb as [_ Fb]; unfold core_nord in Fb;
+           injection Fb as _ _ _ _ _ _ _ _ _ _ Cr1 _ _ _ _.
+      all: destruct keep as [|k0 kr]; [injection Hs2 as <- <-; cbn in Cs'; congruence|].
+      all: cbv zeta in Hs2; match type of Hs2 with (if ?c then _ else _) = _ => destruct c end;
+           injection Hs2 as <- <-; cbn in Cs'; congruence.
+    + destruct (dp s); try discriminate. injection Hs as <- <-.
+      unfold dequeue in Cs'. destruct (inq s) as [|[b ms] q]; [destruct (running s)|]; cbn in Cs'; congruence.
+    + destruct (dp s); try discriminate. injection Hs as <- <-. cbn in Cs'. congruence.
+    + destruct (nth_error (tasks s) k) as [t|]; [|discriminate].
+      destruct (t_st t); try discriminate.
+      destruct (negb (unit_running s t)); [discriminate|].
+      destruct (t_cancelled t); [injection Hs as <- <-; cbn in Cs'; congruence|].
+      destruct (sem_free s); [injection Hs as <- <-; cbn in Cs'; congruence|].
+      destruct (sem_wait s); [|injection Hs as <- <-; cbn in Cs'; congruence].
+      destruct (t_builtin t); injection Hs as <- <-; cbn in Cs'; congruence.
+    + (* LRelHandled: the only place where the panic could arise *)
+      pose proof (raw_Q s (LRelHandled k) s' os I (reachf_inv2 _ _ R)
+                    (inv_used_owners _ (reachf_inv_used _ _ R)) H) as RQ.
+      unfold step_raw in RQ.
+      destruct (nth_error (tasks s) k) as [t|] eqn:E; [|discriminate].
+      destruct (t_st t) eqn:St; try discriminate.
+      set (s0 := set_task k (fun t => t <| t_st := TDone (body_of_outcome t o) |>) s <| sem_free ::= S |>) in *.
+      assert (W0 : wait_ok s0).
+      { unfold wait_ok, s0; cbn. apply wait_ok_upd; [apply I|]. eapply wait_not_in; eauto; [apply I|congruence]. }
+      pose proof (grant_spec (S (length (sem_wait s0))) s0 [] W0) as G.
+      destruct (grant (S (length (sem_wait s0))) s0 []) as [s2 os2]. cbn [fst snd] in *.
+      destruct G as [_ _ _ (_ & _ & _ & _ & _ & B2 & _ & C2 & _) _ _ _ _].
+      assert (C2' : crash s2 = None) by (rewrite C2; exact Cr).
+      destruct (is_note t) eqn:Nt.
+      * destruct (nbar s2) as [|m] eqn:Bm.
+        -- (* would crash: but then Q fails *)
+           destruct (RQ Hs) as (H' & _). injection Hs as <- <-.
+           assert (Rl : released s (t_unit t) = true).
+           { destruct (released s (t_unit t)) eqn:Rr; auto. destruct (q_pend _ _ H _ _ E Rr); congruence. }
+           assert (Rn : runnable t = true).
+           { unfold runnable. destruct (t_pre t) eqn:Pt; auto. destruct (i_pre _ I _ _ E) as [P _].
+             rewrite (P _ Pt) in St. discriminate. }
+           assert (Op : open_note s t = true).
+           { unfold open_note, open_in, rnote, tdone. rewrite Rn, Nt, St. fold (released s (t_unit t)).
+             rewrite Rl. reflexivity. }
+           assert (Pos : 1 <= nbar s).
+           { rewrite (q_bar _ _ H). unfold open_notes. eapply countb_pos; eauto. }
+           assert (Z : nbar s = 0) by (change (nbar s) with (nbar s0); congruence). lia.
+        -- injection Hs as <- <-. cbn in Cs'. congruence.
+      * injection Hs as <- <-. congruence.
+    + destruct (nth_error (units s) u) as [un|]; [|discriminate].
+      destruct (u_st un); try discriminate.
+      destruct (u_chok un); cbn [negb] in Hs; injection Hs as <- <-; cbn in Cs'; [|discriminate].
+      destruct (release_ids_spec (unit_tasks s u) s) as [_ _ _ (_ & _ & _ & _ & _ & _ & _ & C1 & _) _ _ _].
+      congruence.
+    + destruct (find_op n (ops s)) as [[n0|n0 id|n0 w m p]|]; try discriminate.
+      destruct (stop_locked SCStop (s <| ops ::= del_op n |>)) as [s0 os0] eqn:St. injection Hs as <- <-.
+      unfold stop_locked in St. destruct (running _); cbn [negb] in St; [|injection St as <- <-; cbn in Cs'; congruence].
+      match type of St with (?x, _) = _ => assert (Hs' : s0 = x) by congruence end. clear St.
+      match type of Hs' with context [fold_left ?f ?l ?s1] =>
+        pose proof (fold_cancel_spec l s1) as Fs; cbv zeta in Fs;
+        set (s4 := fold_left f l s1) in *; set (s3 := s1) in * end.
+      destruct Fs as (_ & _ & _ & (_ & _ & _ & _ & _ & _ & _ & C4 & _) & _).
+      assert (C3 : crash s3 <> Some CrNegativeBarrier).
+      { unfold s3. destruct (work_closed _); cbn; congruence. }
+      clearbody s4. clearbody s3. subst s0. destruct (c_unblock _); cbn in Cs'; congruence.
+    + destruct (find_op n (ops s)) as [[n0|n0 id|n0 w m p]|]; try discriminate.
+      injection Hs as <- <-. destruct (assoc id _) as [owner|]; [|cbn in Cs'; congruence].
+      destruct (cancel_task_env owner (s <| ops ::= del_op n |>)) as (_ & _ & _ & _ & _ & _ & _ & C1 & _).
+      cbn in C1. congruence.
+  - intros Cs'. apply settle1_inv in Hs. destruct Hs; cbn in Cs'; try congruence.
+    unfold dequeue in Cs'. destruct (inq s) as [|[b ms] q]; [destruct (running s)|]; cbn in Cs'; congruence.
+Qed.
